@@ -58,6 +58,12 @@ var toolSources = map[string][2]string{
 	"oddpairs":    {"##!> include words -- a\n", "##!> include words -- a\n"},
 	"inblock":     {"##!> assemble\na(\n##!<\n", "##!> assemble\n  a(\n##!<\n"},
 	"ininclude":   {"##!> include bad\n", "##!> include bad\n"},
+	"badflagU":    {"##!+ U\ns\n", "##!+ U\ns\n"},
+	// the same exclude file applied to two include files that define {{v}} differently
+	"exA": {"##!>  include-except incA xshared\n", "##!> include-except incA xshared\n"},
+	"exB": {"##!>  include-except incB xshared\n", "##!> include-except incB xshared\n"},
+	// the same include file first with a suffix replacement, then plain
+	"incpairs": {"##!> include words -- 1 x\n##!=>\n##!> include words\n", "##!> include words -- 1 x\n##!=>\n##!> include words\n"},
 }
 
 func toolRaw(s string) string   { return toolSources[s][0] }
@@ -105,6 +111,10 @@ func (e *toolEnv) rulesText(t *toolTree) string {
 func (e *toolEnv) concrete(t *toolTree) Tree {
 	tr := Tree{
 		"crs/regex-assembly/include/words.ra":               fmtHeader + "w1\nw2\n",
+		"crs/regex-assembly/include/bad.ra":                 fmtHeader + "a(\n",
+		"crs/regex-assembly/include/incA.ra":                fmtHeader + "##!> define v ka\n{{v}}\nqa\n",
+		"crs/regex-assembly/include/incB.ra":                fmtHeader + "##!> define v kb\n{{v}}\nqb\n",
+		"crs/regex-assembly/exclude/xshared.ra":             fmtHeader + "{{v}}\n",
 		"crs/regex-assembly/notes.md":                       "##!> assemble\n  not an assembly file\n",
 		"crs/regex-assembly/932100.ra.orig":                 "   stale  \n",
 		"crs/README.md":                                     "# OWASP CRS ver.4.0.0\nSecComponentSignature \"OWASP_CRS/4.0.0\"\n",
@@ -194,8 +204,10 @@ func checkToolchain(c *Ctx, prop string) error {
 	if err != nil {
 		return err
 	}
-	writeTree(cal, Tree{"regex-assembly/include/words.ra": fmtHeader + "w1\nw2\n", "regex-assembly/include/bad.ra": fmtHeader + "a(\n"})
-	for _, s := range []string{"store", "define", "refonly", "flagsprefix", "plain", "incl"} {
+	writeTree(cal, Tree{"regex-assembly/include/words.ra": fmtHeader + "w1\nw2\n", "regex-assembly/include/bad.ra": fmtHeader + "a(\n",
+		"regex-assembly/include/incA.ra": fmtHeader + "##!> define v ka\n{{v}}\nqa\n", "regex-assembly/include/incB.ra": fmtHeader + "##!> define v kb\n{{v}}\nqb\n",
+		"regex-assembly/exclude/xshared.ra": fmtHeader + "{{v}}\n"})
+	for _, s := range []string{"store", "define", "refonly", "flagsprefix", "plain", "incl", "exA", "exB", "incpairs"} {
 		r := c.runCLI(cal, toolRaw(s), "-d", cal, "regex", "generate", "-")
 		if r.Exit != 0 || r.Stdout == "" {
 			c.violation("toolchain", map[string]any{"why": "a well-formed program of the pool does not compile on its own", "program": toolRaw(s), "stderr": lastLine(r.Stderr)})
@@ -217,7 +229,7 @@ func checkToolchain(c *Ctx, prop string) error {
 		return true
 	}
 	st, err := c.runTLC(TLCRun{Module: "MC_Toolchain", Seed: c.Seed, Timeout: 30 * time.Minute,
-		Constants: map[string]string{"Files": "<- MCFiles", "Sources": "<- MCSources", "Compiles": "<- MCCompiles", "Formats": "<- MCFormats", "FmtAborts": "<- MCFmtAborts", "Export": "= TRUE", "MaxEdits": "= 1"},
+		Constants: map[string]string{"Files": "<- MCFiles", "Sources": "<- MCSources", "Compiles": "<- MCCompiles", "Formats": "<- MCFormats", "FmtAborts": "<- MCFmtAborts", "Export": "= TRUE", "MaxEdits": "= 1", "Full": "= " + tlaBool(c.Tier == "thorough")},
 		Invs:      []string{"FrameOK", "LoudOK", "RoundTripOK", "AllIsSingles", "ExportCase"}}, func(raw []byte) error {
 		n := atomic.AddInt64(&enumerated, 1)
 		// cheap pre-filter by hash before decoding
@@ -302,7 +314,7 @@ func checkToolchain(c *Ctx, prop string) error {
 	c.Cov["per_command"] = perCmd
 	c.Cov["cli_executions"] = cli
 	c.Cov["exhaustive"] = false
-	c.Cov["rule"] = "TLC explores every transition (tree before, command, tree after, exit, components written) of Toolchain.tla from 216 initial trees (12 assignments of 17 program shapes incl. one per fault class of C16 at top level / in a block / in an include to 3 assembly files - shared stash names, definitions, flags/prefix only in one file, include-only, a failing file in the middle, a chain offset - x formatted or not x rule present or missing x one / no / two rules files) closed under one environment edit, for 14 commands incl. every --all variant and github mode, and checks FrameOK, LoudOK, RoundTripOK and AllIsSingles on each; a stratified sample of the transitions is executed on a concrete tree with decoy files (other extensions, look-alike names, nested directories, a sibling directory outside the root): exit status, abstract tree after (read back from the bytes) and the set of changed paths must be what the model says. " +
+	c.Cov["rule"] = "TLC explores every transition (tree before, command, tree after, exit, components written) of Toolchain.tla from 144 (quick) / 396 (thorough) initial trees (8 / 22 assignments of 21 program shapes incl. one per fault class of C16 at top level / in a block / in an include to 3 assembly files - shared stash names, definitions, flags/prefix only in one file, include-only, a failing file in the middle, a chain offset - x formatted or not x rule present or missing x one / no / two rules files) closed under one environment edit, for 14 commands incl. every --all variant and github mode, and checks FrameOK, LoudOK, RoundTripOK and AllIsSingles on each; a stratified sample of the transitions is executed on a concrete tree with decoy files (other extensions, look-alike names, nested directories, a sibling directory outside the root): exit status, abstract tree after (read back from the bytes) and the set of changed paths must be what the model says. " +
 		map[string]string{"C08": "C08 sample: --all commands and the single commands they must equal; non-trivial = an --all command on a tree with >= 2 assembly files.",
 			"C15": "C15 sample: all commands; every transition is non-trivial (the whole tree incl. decoys is snapshotted).",
 			"C16": "C16 sample: transitions the model ends with exit 1 and every generate; non-trivial = the model says the command must fail."}[prop]
